@@ -5,7 +5,10 @@ From NG Require Export VM.Obs.
 Open Scope Z_scope.
 
 Inductive case :=
-| CRun (prog : list Z) (base limit_pico : Z) (fuel : positive) (impl : outcome).
+| CRun (prog : list Z) (base limit_pico : Z) (fuel : positive) (impl : outcome)
+(* script A runs [pause] instructions, then script B is loaded on top of it (vm.LoadScript: sid = A's, rv = -1;
+   vm.LoadScriptWithHash: another sid, rv = 1) and the VM runs to the end *)
+| CLoad (progA : list Z) (pause : nat) (progB : list Z) (sidB : N) (rv : Z) (base limit_pico : Z) (fuel : positive) (impl : outcome).
 
 Definition check_case (c : case) : N :=
   match c with
@@ -15,8 +18,25 @@ Definition check_case (c : case) : N :=
       | None => 2%N      (* the model is still running after the budget the implementation needed *)
       | Some o => if outcome_eqb o impl then 0%N else 2%N
       end
+  | CLoad progA pause progB sidB rv base limit fuel impl =>
+      if negb (bytes_okb progA) || negb (bytes_okb progB) then 3%N else
+      match run pause (init_state progA 1%N base limit) with
+      | Running s1 =>
+          match outcome_of (runp fuel (load_script s1 progB sidB rv)) with
+          | None => 2%N
+          | Some o => if outcome_eqb o impl then 0%N else 2%N
+          end
+      | _ => 2%N         (* the implementation was still running script A at the pause *)
+      end
   end.
 
 (* for debugging a disagreement *)
 Definition model_outcome (c : case) : option outcome :=
-  match c with CRun prog base limit fuel _ => outcome_of (runp fuel (init_state prog 1%N base limit)) end.
+  match c with
+  | CRun prog base limit fuel _ => outcome_of (runp fuel (init_state prog 1%N base limit))
+  | CLoad progA pause progB sidB rv base limit fuel _ =>
+      match run pause (init_state progA 1%N base limit) with
+      | Running s1 => outcome_of (runp fuel (load_script s1 progB sidB rv))
+      | _ => None
+      end
+  end.
